@@ -323,6 +323,8 @@ def run(item, ctx, tier, seed):
             ctx.fail("deterministic-given-answers", case, observed=f"{nondet} of {leaves} leaves", expected=0)
         if exact and abs(mass - 1.0) > 1e-9:
             ctx.fail("leaf-probabilities-sum-to-one", case, observed=mass, expected=1.0)
+        elif exact:
+            ctx.add("complete_answer_trees_with_leaf_mass_1")
         if method == "callable" or smoothing:
             continue
         # ---- whole-tree verdicts --------------------------------------------------
